@@ -119,3 +119,38 @@ def pipeline(tier, rep, calibrate=True):
                                     "(spec/projection error): %s %s" % (dv["kind"], json.dumps(dv.get("ev"))[:500]))
         m["calibration_events_std"] = tv["std"]["events"]
     return tv["etl"]
+
+
+def replay(rec):
+    """tools/check.py --replay: instantiate the extents / strides / span triple of the recorded event again on the
+    current tree (all compiled patterns), judge the fresh events and return the deviations on the same
+    operation, pattern and layout / form."""
+    ev = rec["event"]
+    if ev["op"] in ("span", "span_obs"):
+        lines = [{"k": "span", "n": ev["n"], "o": ev.get("o", 0), "c": ev.get("c", -1)}]
+    elif ev.get("layout") == "stride":
+        lines = [{"k": "stride", "ext": ev["ext"], "strides": ev["sin"], "pad": 0}]
+    else:
+        lines = [{"k": "ext", "ext": ev["ext"]}]
+    d = vlib.workdir("replay")
+    gp = os.path.join(d, "md_gen.ndjson")
+    with open(gp, "w") as f:
+        for ln in lines:
+            f.write(json.dumps(ln) + "\n")
+    nd, etl_flags = probe()
+    rank = len(ev.get("ext", []))
+    ps = [p for p in parts("thorough") if not (p in (1, 2, 3, 4, 5) and rank != 3) and not (p == 6 and rank != 4)]
+    jobs = [dict(src="md_driver.cpp", out="md_replay_%d" % p, std="c++23", flags=CXX + ["-DVH_PART=%d" % p] + list(etl_flags),
+                 timeout=1500) for p in ps]
+    bins = vlib.build_many(jobs, par=8)
+    tp = os.path.join(d, "md_trace.ndjson")
+    with open(tp, "wb") as out:
+        for b in bins:
+            one = os.path.join(d, "md_trace_part.ndjson")
+            vlib.run([b, gp], one)
+            out.write(open(one, "rb").read())
+    if os.path.getsize(tp) == 0:
+        raise vlib.ModelFailure("replay produced no events for %s" % json.dumps(ev)[:300])
+    tv = vlib.tlc_tv("MdTrace.tla", "MdTrace.cfg", tp, "md_replay", "3g")
+    keys = ("op", "pat", "layout", "form", "kind", "it", "tpl", "sn", "slices", "src_pat")
+    return [x for x in tv["deviations"] if all(x["ev"].get(k) == ev.get(k) for k in keys)]
